@@ -1,8 +1,10 @@
-(** Extraction of the C03 node model (ExtrOcamlBasic only; N/Z/positive/nat stay inductive). *)
+(** Extraction of the C03 node model and of the validateBlock model (Validate.v; its C02 types come
+    after Node.v, so that Node's names keep their spelling and C02's clashing ones get the suffix 0)
+    — the C03 node model (ExtrOcamlBasic only; N/Z/positive/nat stay inductive). *)
 Require Extraction.
 Require Import ExtrOcamlBasic.
-From Kardia Require Import C03.Node.
+From Kardia Require Import C03.Node C03.Validate.
 Extraction Language OCaml.
 Set Extraction KeepSingleton.
 From Kardia Require Import Base.Anchor.
-Extraction "../ocaml/C03/model.ml" Anchor.anchor Node.init Node.step Node.step_num Node.ps_complete.
+Extraction "../ocaml/C03/model.ml" Anchor.anchor Node.init Node.step Node.step_num Node.ps_complete Validate.validate_block.
